@@ -210,6 +210,7 @@ structure MHdr where
 deriving DecidableEq, Repr
 
 def MHdr.toHdr (h : MHdr) : Hdr := [h.ver, h.len, h.et, h.sq, h.dom]
+def MHdr.ofHdr (h : Hdr) : MHdr := ⟨h.getD 0 0, h.getD 1 0, h.getD 2 0, h.getD 3 0, h.getD 4 0⟩
 
 inductive V where
   | unset
